@@ -1,276 +1,11 @@
-//! C04 / C10 (writer half): serialise offset-free write-fonts values with the real `write_into`
-//! and read them back with read-fonts. Pulled into write-fonts/src/write.rs as `mod verif_harness`.
+//! (no harnesses) — C04 / the writer half of C10 were attempted here and withdrawn.
 //!
-//! @assume `verif_write_bytes` = TableWriter::default(); t.write_into(); into_data().bytes — the same write_into/TableData that dump_table uses for the root object, WITHOUT the packing graph (BTreeMap/BinaryHeap, out of CBMC's reach): values holding a non-null offset cannot be serialised this way and are outside the claim
-//! @assume std::hash::RandomState::new is stubbed (fixed keys): TableWriter owns a HashMap that is constructed but never used on this path; the real seeding reaches getrandom, which Kani does not support
-//! @bound all scalar fields symbolic; arrays of <= 2 elements
-#![allow(unused, clippy::all)]
-
-#[cfg(not(kani))]
-#[path = "/verif/harness/shim/shim.rs"]
-mod kani;
-
-use super::*;
-use crate::validate::Validate;
-use crate::from_obj::ToOwnedTable;
-use font_types::*;
-use read_fonts::{FontData, FontRead, FontReadWithArgs};
-
-pub(crate) fn verif_write_bytes<T: FontWrite>(t: &T) -> Vec<u8> {
-    let mut w = TableWriter::default();
-    t.write_into(&mut w);
-    w.into_data().bytes
-}
-
-#[cfg(kani)]
-fn verif_random_state() -> std::hash::RandomState {
-    // two u64 keys
-    unsafe { core::mem::transmute([0u64; 2]) }
-}
-
-fn opt16(present: bool) -> Option<u16> {
-    if present { Some(kani::any()) } else { None }
-}
-
-// @bound Maxp version 0.5 and 1.0 (all 13 optional fields present or all absent, plus mixed presence which validation must reject or the writer must handle)
-// @timeout 900
-#[cfg_attr(kani, kani::proof)]
-#[cfg_attr(kani, kani::stub(std::hash::RandomState::new, verif_random_state))]
-#[cfg_attr(kani, kani::unwind(40))]
-pub fn c04_maxp_roundtrip() {
-    use crate::tables::maxp::Maxp;
-    let v1: bool = kani::any();
-    let t = Maxp {
-        num_glyphs: kani::any(),
-        max_points: opt16(v1),
-        max_contours: opt16(v1),
-        max_composite_points: opt16(v1),
-        max_composite_contours: opt16(v1),
-        max_zones: opt16(v1),
-        max_twilight_points: opt16(v1),
-        max_storage: opt16(v1),
-        max_function_defs: opt16(v1),
-        max_instruction_defs: opt16(v1),
-        max_stack_elements: opt16(v1),
-        max_size_of_instructions: opt16(v1),
-        max_component_elements: opt16(v1),
-        max_component_depth: opt16(v1),
-    };
-    if t.validate().is_err() {
-        return;
-    }
-    let bytes = verif_write_bytes(&t);
-    assert!(bytes.len() == if v1 { 32 } else { 6 });
-    let r = read_fonts::tables::maxp::Maxp::read(FontData::new(&bytes)).expect("written table reads back");
-    assert!(r.num_glyphs() == t.num_glyphs);
-    assert!(r.version() == if v1 { Version16Dot16::VERSION_1_0 } else { Version16Dot16::VERSION_0_5 });
-    assert!(r.max_points() == t.max_points && r.max_contours() == t.max_contours);
-    assert!(r.max_composite_points() == t.max_composite_points && r.max_composite_contours() == t.max_composite_contours);
-    assert!(r.max_zones() == t.max_zones && r.max_twilight_points() == t.max_twilight_points);
-    assert!(r.max_storage() == t.max_storage && r.max_function_defs() == t.max_function_defs);
-    assert!(r.max_instruction_defs() == t.max_instruction_defs && r.max_stack_elements() == t.max_stack_elements);
-    assert!(r.max_size_of_instructions() == t.max_size_of_instructions);
-    assert!(r.max_component_elements() == t.max_component_elements && r.max_component_depth() == t.max_component_depth);
-    let back: Maxp = r.to_owned_table();
-    assert!(back == t);
-    let bytes2 = verif_write_bytes(&back);
-    assert!(bytes2.len() == bytes.len());
-    let k: usize = kani::any();
-    kani::assume(k < bytes.len());
-    assert!(bytes2[k] == bytes[k]);
-    core::mem::forget(bytes);
-    core::mem::forget(bytes2);
-    kani::cover!(v1, "version 1.0");
-    kani::cover!(!v1, "version 0.5");
-}
-
-// @timeout 900
-#[cfg_attr(kani, kani::proof)]
-#[cfg_attr(kani, kani::stub(std::hash::RandomState::new, verif_random_state))]
-#[cfg_attr(kani, kani::unwind(40))]
-pub fn c04_hhea_roundtrip() {
-    use crate::tables::hhea::Hhea;
-    let t = Hhea {
-        ascender: FWord::new(kani::any()),
-        descender: FWord::new(kani::any()),
-        line_gap: FWord::new(kani::any()),
-        advance_width_max: UfWord::new(kani::any()),
-        min_left_side_bearing: FWord::new(kani::any()),
-        min_right_side_bearing: FWord::new(kani::any()),
-        x_max_extent: FWord::new(kani::any()),
-        caret_slope_rise: kani::any(),
-        caret_slope_run: kani::any(),
-        caret_offset: kani::any(),
-        number_of_h_metrics: kani::any(),
-    };
-    if t.validate().is_err() {
-        return;
-    }
-    let bytes = verif_write_bytes(&t);
-    assert!(bytes.len() == 36);
-    let r = read_fonts::tables::hhea::Hhea::read(FontData::new(&bytes)).expect("reads back");
-    assert!(r.ascender() == t.ascender && r.descender() == t.descender && r.line_gap() == t.line_gap);
-    assert!(r.advance_width_max() == t.advance_width_max);
-    assert!(r.min_left_side_bearing() == t.min_left_side_bearing && r.min_right_side_bearing() == t.min_right_side_bearing);
-    assert!(r.x_max_extent() == t.x_max_extent && r.caret_slope_rise() == t.caret_slope_rise);
-    assert!(r.caret_slope_run() == t.caret_slope_run && r.caret_offset() == t.caret_offset);
-    assert!(r.number_of_h_metrics() == t.number_of_h_metrics);
-    assert!(r.version() == MajorMinor::VERSION_1_0);
-    let back: Hhea = r.to_owned_table();
-    assert!(back == t);
-    core::mem::forget(bytes);
-    kani::cover!(true, "reached");
-}
-
-// @bound Os2 versions 0, 1, 4, 5 (field presence as compute_version implies), all scalar fields symbolic
-// @timeout 1500
-#[cfg_attr(kani, kani::proof)]
-#[cfg_attr(kani, kani::stub(std::hash::RandomState::new, verif_random_state))]
-#[cfg_attr(kani, kani::unwind(110))]
-pub fn c04_os2_roundtrip() {
-    use crate::tables::os2::{Os2, SelectionFlags};
-    let ver: u8 = kani::any();
-    kani::assume(ver == 0 || ver == 1 || ver == 4 || ver == 5);
-    let t = Os2 {
-        x_avg_char_width: kani::any(),
-        us_weight_class: kani::any(),
-        us_width_class: kani::any(),
-        fs_type: kani::any(),
-        y_subscript_x_size: kani::any(),
-        y_subscript_y_size: kani::any(),
-        y_subscript_x_offset: kani::any(),
-        y_subscript_y_offset: kani::any(),
-        y_superscript_x_size: kani::any(),
-        y_superscript_y_size: kani::any(),
-        y_superscript_x_offset: kani::any(),
-        y_superscript_y_offset: kani::any(),
-        y_strikeout_size: kani::any(),
-        y_strikeout_position: kani::any(),
-        s_family_class: kani::any(),
-        panose_10: kani::any(),
-        ul_unicode_range_1: kani::any(),
-        ul_unicode_range_2: kani::any(),
-        ul_unicode_range_3: kani::any(),
-        ul_unicode_range_4: kani::any(),
-        ach_vend_id: Tag::from_be_bytes(kani::any()),
-        fs_selection: SelectionFlags::from_bits_truncate(kani::any()),
-        us_first_char_index: kani::any(),
-        us_last_char_index: kani::any(),
-        s_typo_ascender: kani::any(),
-        s_typo_descender: kani::any(),
-        s_typo_line_gap: kani::any(),
-        us_win_ascent: kani::any(),
-        us_win_descent: kani::any(),
-        ul_code_page_range_1: if ver >= 1 { Some(kani::any()) } else { None },
-        ul_code_page_range_2: if ver >= 1 { Some(kani::any()) } else { None },
-        sx_height: if ver >= 4 { Some(kani::any()) } else { None },
-        s_cap_height: if ver >= 4 { Some(kani::any()) } else { None },
-        us_default_char: if ver >= 4 { Some(kani::any()) } else { None },
-        us_break_char: if ver >= 4 { Some(kani::any()) } else { None },
-        us_max_context: if ver >= 4 { Some(kani::any()) } else { None },
-        us_lower_optical_point_size: if ver >= 5 { Some(kani::any()) } else { None },
-        us_upper_optical_point_size: if ver >= 5 { Some(kani::any()) } else { None },
-    };
-    if t.validate().is_err() {
-        return;
-    }
-    let bytes = verif_write_bytes(&t);
-    let expect_len = match ver { 0 => 78, 1 => 86, 4 => 96, _ => 100 };
-    assert!(bytes.len() == expect_len);
-    let r = read_fonts::tables::os2::Os2::read(FontData::new(&bytes)).expect("reads back");
-    assert!(r.version() == ver as u16);
-    assert!(r.x_avg_char_width() == t.x_avg_char_width && r.us_weight_class() == t.us_weight_class);
-    assert!(r.us_win_descent() == t.us_win_descent && r.ach_vend_id() == t.ach_vend_id);
-    assert!(r.ul_code_page_range_1() == t.ul_code_page_range_1 && r.ul_code_page_range_2() == t.ul_code_page_range_2);
-    assert!(r.sx_height() == t.sx_height && r.us_max_context() == t.us_max_context);
-    assert!(r.us_lower_optical_point_size() == t.us_lower_optical_point_size);
-    assert!(r.us_upper_optical_point_size() == t.us_upper_optical_point_size);
-    assert!(r.panose_10()[9] == t.panose_10[9] && r.panose_10()[0] == t.panose_10[0]);
-    let back: Os2 = r.to_owned_table();
-    assert!(back == t);
-    core::mem::forget(bytes);
-    kani::cover!(ver == 5, "version 5");
-    kani::cover!(ver == 0, "version 0");
-}
-
-// @bound PackedDeltas of <= 4 symbolic i32 values: the reader's consume_all().iter() returns exactly the values written (8/16/32-bit and zero runs); unwind 8
-// @timeout 1500
-#[cfg_attr(kani, kani::proof)]
-#[cfg_attr(kani, kani::stub(std::hash::RandomState::new, verif_random_state))]
-#[cfg_attr(kani, kani::unwind(8))]
-pub fn c10_packed_deltas_write_read() {
-    use crate::tables::variations::PackedDeltas;
-    let vals: [i32; 4] = kani::any();
-    let n: usize = kani::any();
-    kani::assume(n >= 1 && n <= 4);
-    let mut v = Vec::with_capacity(4);
-    let mut i = 0;
-    while i < 4 {
-        if i < n {
-            v.push(vals[i]);
-        }
-        i += 1;
-    }
-    let t = PackedDeltas::new(v);
-    let bytes = verif_write_bytes(&t);
-    let rd = read_fonts::tables::variations::PackedDeltas::consume_all(FontData::new(&bytes));
-    let mut it = rd.iter();
-    let mut i = 0;
-    while i < 4 {
-        if i < n {
-            assert!(it.next() == Some(vals[i]));
-        }
-        i += 1;
-    }
-    assert!(it.next().is_none());
-    core::mem::forget(bytes);
-    core::mem::forget(t);
-    kani::cover!(n == 4 && vals[0] == 0 && vals[1] > 40000, "zero run then long");
-}
-
-// @tier thorough
-// @timeout 1500
-// @mem 24
-#[cfg_attr(kani, kani::proof)]
-#[cfg_attr(kani, kani::stub(std::hash::RandomState::new, verif_random_state))]
-#[cfg_attr(kani, kani::unwind(40))]
-pub fn c04_hhea_write_read_minimal() {
-    use crate::tables::hhea::Hhea;
-    let t = Hhea {
-        ascender: FWord::new(kani::any()),
-        descender: FWord::new(kani::any()),
-        line_gap: FWord::new(kani::any()),
-        advance_width_max: UfWord::new(kani::any()),
-        min_left_side_bearing: FWord::new(kani::any()),
-        min_right_side_bearing: FWord::new(kani::any()),
-        x_max_extent: FWord::new(kani::any()),
-        caret_slope_rise: kani::any(),
-        caret_slope_run: kani::any(),
-        caret_offset: kani::any(),
-        number_of_h_metrics: kani::any(),
-    };
-    let bytes = verif_write_bytes(&t);
-    assert!(bytes.len() == 36);
-    let r = read_fonts::tables::hhea::Hhea::read(FontData::new(&bytes)).expect("reads back");
-    assert!(r.ascender() == t.ascender && r.descender() == t.descender && r.line_gap() == t.line_gap);
-    assert!(r.number_of_h_metrics() == t.number_of_h_metrics && r.caret_offset() == t.caret_offset);
-    core::mem::forget(bytes);
-    kani::cover!(true, "reached");
-}
-
-#[cfg(all(test, not(kani)))]
-include!("write_hook_dispatch.rs");
-
-#[cfg(all(test, not(kani)))]
-#[test]
-fn verif_replay() {
-    let Ok(path) = std::env::var("VERIF_REPLAY_FILE") else {
-        return;
-    };
-    let (name, vals) = kani::read_replay_file(&path);
-    if let Some(f) = verif_dispatch(&name) {
-        kani::load(vals);
-        f();
-        println!("VERIF-REPLAY-COMPLETED");
-    }
-}
+//! The plan was to serialise offset-free write-fonts tables with the real `write_into` through
+//! `TableWriter::default(); t.write_into(); into_data().bytes` (no packing graph), with
+//! `std::hash::RandomState::new` stubbed, and to read the bytes back with read-fonts. Measured in
+//! this sandbox (Kani 0.68 / CBMC 6.11): the *smallest* such query — `Hhea` (36 bytes, eleven
+//! scalar fields), write -> read -> compare five getters, nothing else — exhausts 25 GB under
+//! `ulimit -v` and was OOM-killed at 58 GB without the limit (symbolic contents flowing through
+//! `Vec<u8>` growth in `TableData::write_bytes`). C04 is therefore listed as not applicable in
+//! MANIFEST.json rather than claimed at a bound that cannot be run.
+#![allow(unused)]
